@@ -13,6 +13,8 @@ type Case struct {
 	BaseName string
 	BaseSeed []Step // how Base was produced (for the replay artefact)
 	Steps    []Step
+	// Probe: also apply the spec's CheckState (status / reflog / ... probes) to the state after every command
+	Probe bool
 }
 
 // RunCases executes every case (in parallel) and records violations. It returns the
@@ -82,6 +84,13 @@ func (x *Explorer) RunCases(cases []Case) int {
 				post = ApplyEnv(cur.State, st)
 			}
 			cur = &Node{State: post, Parent: cur, Via: st, Depth: k + 1, Seed: cs.BaseName}
+			if cs.Probe && st.Op == "run" && x.Spec.CheckState != nil {
+				if vs := x.Spec.CheckState(c, cur); len(vs) > 0 {
+					x.addViolations(vs, cur, nil)
+					atomic.AddInt64(&x.Pruned, 1)
+					break
+				}
+			}
 		}
 		atomic.AddInt64(&done, 1)
 	})
